@@ -169,7 +169,9 @@ func decodeInline(d *xml.Decoder, direct, content *strings.Builder, spans *[]spa
 				if spans != nil {
 					*spans = append(*spans, span)
 				}
-			case "a":
+			case "a", "ruby", "ruby-base":
+				// Links and ruby are transparent: the ruby base is the text itself
+				// (its <text:ruby-text> annotation is skipped below)
 				if err := decodeInline(d, nil, content, spans); err != nil {
 					return err
 				}
